@@ -20,6 +20,7 @@ Decided (all on the type-checked MIR):
       builder of the key vector detaches the cache before any second level is pushed (so: more than one level =>
       detached), and a use indexed by `len - 1` is accepted only when its key comes from that builder, called with
       the same cache variable
+  X7  the MAC writer absorbs every cache slot (sibling agreement with the checker, which MACs every stored level)
   X6  totality on arbitrary aux bytes / lengths: the panic-freedom engine (as C11) restricted to the functions that
       touch the aux buffer or the expanded cache
 Not decided: that cached nodes equal recomputed nodes (output equality over runtime values).
@@ -540,6 +541,72 @@ def x4_finalize(chk, F, an, tag):
     chk.count("mac_writer_call_sites", n)
 
 
+def x7_mac_covers_all_slots(chk, F, an, tag):
+    """The MAC writer absorbs every cache slot (the checker MACs every stored level): the loop that reads the slot
+    array runs over all of its indices (a range 0..len / 0..=len-1, or an iterator over the array itself)."""
+    fin = an.finalize
+    slot_len = None
+    for fl in zz.fields_of(F, an.T):
+        if fl["name"] == an.slot:
+            slot_len = fl["ty"].get("len")
+    reads = []
+    for b, i, s in fin.iter_stmts():
+        if s["k"] != "assign" or fin.blocks[b]["cleanup"]:
+            continue
+        for pl in [s["rv"].get("place")] if s["rv"]["k"] in ("ref", "rawptr") else []:
+            pr = pl["proj"]
+            if any(e["k"] == "field" and e.get("name") == an.slot for e in pr):
+                idx = [e["local"] for e in pr if e["k"] == "index"]
+                reads.append((b, idx[0] if idx else None))
+    covered = None
+    detail = "no indexed read of the slot array found"
+    for b, il in reads:
+        if il is None:
+            # borrowed as a whole (iter / iter_mut over the array)
+            covered = (0, slot_len - 1) if slot_len else None
+            detail = "whole array iterated"
+            continue
+        o = flow.origin(fin, {"k": "copy", "place": {"local": il, "proj": []}})
+        # il = copy ((next(..) as Some).0): find the `next` call and its range
+        nxt = None
+        cur = il
+        for _ in range(6):
+            ds = [d for d in fin.defs_of(cur) if not fin.blocks[d[0]]["cleanup"]]
+            if len(ds) != 1 or ds[0][1] == "term":
+                break
+            rv = ds[0][2]["rv"]
+            if rv["k"] != "use":
+                break
+            p = core.op_place(rv["op"])
+            if p is None:
+                break
+            if p["proj"]:
+                dd = [d for d in fin.defs_of(p["local"]) if not fin.blocks[d[0]]["cleanup"]]
+                if len(dd) == 1 and dd[0][1] == "term":
+                    nxt = dd[0][2]
+                break
+            cur = p["local"]
+        if nxt is None:
+            detail = "loop index of the slot read is not an iterator item"
+            continue
+        root = chain_root(fin, nxt["args"][0], ("into_iter", "iter", "by_ref"))
+        ds = [d for d in fin.defs_of(root) if not fin.blocks[d[0]]["cleanup"]] if root is not None else []
+        if len(ds) == 1:
+            b0, i0, d0 = ds[0]
+            if i0 == "term" and core.strip_generics(core.callee_path(d0) or "").endswith("RangeInclusive::new"):
+                a, e = core.op_const_val(d0["args"][0]), core.op_const_val(d0["args"][1])
+                covered = (a, e) if a is not None and e is not None else None
+                detail = "range %s..=%s" % (a, e)
+            elif i0 != "term" and d0["k"] == "assign" and d0["rv"]["k"] == "aggregate" and "ops::range::Range" in d0["rv"].get("path", ""):
+                a, e = core.op_const_val(d0["rv"]["ops"][0]), core.op_const_val(d0["rv"]["ops"][1])
+                covered = (a, e - 1) if a is not None and e is not None else None
+                detail = "range %s..%s" % (a, e)
+    ok = covered is not None and slot_len is not None and covered[0] == 0 and covered[1] == slot_len - 1
+    chk.ob("X7.mac-writer-covers-every-cache-slot", fin.key + tag, ok,
+           "%s absorbs cache slots %s of the %s slots into the MAC (%s) while the checker MACs every stored level: a cache level kept in an uncovered slot "
+           "makes the written MAC invalid and the aux data is silently ignored afterwards" % (fin.path, covered, slot_len, detail), where=fin.loc())
+
+
 # ---------------------------------------------------------------------------------------------- X5 scope
 def aux_var_of(g, an, operand, depth=0):
     """The aux variable (local) an operand refers to: a parameter of type &mut Option<T>, or an owned local of
@@ -962,6 +1029,7 @@ def run_config(chk, ctx, name):
     if sig is not None:
         x2_fresh(chk, F, an, sig, tag)
     x4_finalize(chk, F, an, tag)
+    x7_mac_covers_all_slots(chk, F, an, tag)
     x5_scope(chk, F, an, tag)
     # X6
     auxfns = set(F.reachable(an.gates + [an.finalize.path] + an.accessors + [an.E.path]))
